@@ -6,7 +6,7 @@
 //! usage: builder_driver <histories.ndjson> <trace.ndjson> <mode A|B>
 //!   mode A: runs 1 (as scripted), 2 (same again, same process), 3 (decorrelated Rust types
 //!           and entry points) of every history, then the conversions
-//!   mode B: run 4 = run 1 again, in this separately started process
+//!   mode B: run 4 = run 1 again, in this separately started process (histories in reverse order)
 //!   mode F<n>: run n (5, 6, ...) = the requests of run 1 again on ANOTHER HOST (this binary is then
 //!           interpreted by Miri for a foreign target): layout and Display only, no code generation
 
@@ -821,8 +821,13 @@ fn main() {
     };
     let mode = args[3].as_str();
     let mut nh = 0u64;
-    for line in input.lines() {
-        let line = line.unwrap();
+    let mut lines: Vec<String> = input.lines().map(|l| l.unwrap()).collect();
+    if mode == "B" {
+        // the other process meets the histories in the opposite order: whatever survives from one
+        // history to the next (caches, counters, interned names) differs between the two processes
+        lines.reverse();
+    }
+    for line in lines {
         if line.trim().is_empty() {
             continue;
         }
